@@ -4,6 +4,7 @@ pub mod c05;
 pub mod c06;
 pub mod c12;
 pub mod c15;
+pub mod c16;
 pub mod dbx;
 pub mod hist;
 pub mod sqlgen;
